@@ -72,7 +72,9 @@ namespace detail
 			if(Value == 0)
 				return -1;
 
-			return glm::bitCount(~Value & (Value - static_cast<genIUType>(1)));
+			typedef typename make_unsigned<genIUType>::type genUType;
+			genUType const UValue = static_cast<genUType>(Value);
+			return glm::bitCount(static_cast<genUType>(~UValue & (UValue - static_cast<genUType>(1))));
 		}
 	};
 
